@@ -28,6 +28,9 @@ func (r *Run) Enabled() []wx.Op {
 		if c.Parents > 0 && s >= c.Parents {
 			break
 		}
+		if !c.inFocus(s) {
+			continue
+		}
 		if m.Slots[s].Alive {
 			targets = append(targets, int8(s))
 		} else {
@@ -117,6 +120,9 @@ func (r *Run) Enabled() []wx.Op {
 		e := &m.Slots[s]
 		S := int8(s)
 		if !e.Alive && !ill {
+			continue
+		}
+		if !c.inFocus(s) {
 			continue
 		}
 		if f&FRemove != 0 {
@@ -344,6 +350,9 @@ func (r *Run) Enabled() []wx.Op {
 				}
 			}
 			for _, t := range ts {
+				if t > 13 {
+					continue // filter references encode the target slot in a few bits
+				}
 				refs = append(refs, encodeRef(spec, t, false))
 				if f&FPlainToo != 0 && m.regIndex(spec, m.handle(t)) >= 0 {
 					refs = append(refs, encodeRef(spec, t, true))
@@ -442,9 +451,12 @@ func (r *Run) Enabled() []wx.Op {
 				ts := []int8{-1}
 				if fs.Rel {
 					ts = ts[:0]
-					for s := 0; s < n; s++ {
+					for s := 0; s < n && s < 14; s++ {
 						if c.Parents > 0 && s >= c.Parents {
 							break
+						}
+						if !c.inFocus(s) {
+							continue
 						}
 						ts = append(ts, int8(s))
 					}
